@@ -16,4 +16,6 @@ def obligations(tier):
         for (it, ot) in [(0, 1), (6, 3)]:
             obls.append(api_step(op, it, ot, 2, 2))
     obls.append(api_step(4, 0, 0, 2, 2)); obls.append(api_step(4, 0, 0, 8, 2)); obls.append(api_step(1, 0, 0, 2, 2))
+    obls.append(init_qq_obl())      # real _soxr_init for the quick recipe: cubic stage inside its envelope
+    obls.append(plan_obl(3))      # the halving loop of _soxr_init terminates for every finite ratio
     return obls
